@@ -36,7 +36,7 @@ import (
 	"verifharness/hx"
 )
 
-var stats = evid.New("C22", "rapid: histories of 1..8 writes; small domain, shape dense: offset 0..12, length 1..8, shape sparse: offset 0..30, length 1..3 (zero-length writes as a separate class, 1 write in 10), wide domain offsets built around byte-carry points (255/256, 65535/65536, 2^24, 2^32, 2^40) and around the ends of earlier writes, lengths 1..300 or up to 70000; after EVERY write every offset 0..max+2 (small) / every start, end, start-1, end-1, end+1 and drawn offsets (wide) is probed with request lengths 1, 2, 3, a drawn one and one reaching past the last write. Exhaustive sub-run: every sequence of <=3 writes with offset,length in 0..6 (thorough: also every sequence of <=4 writes whose starts and ends lie in 0..7, which realises every order pattern of 4 writes). Non-trivial: >=2 writes of which at least one pair overlaps, touches (end==start), nests or is identical; distinct by the normalised interval pattern (rank-compressed starts/ends in order of the writes, zero-length writes marked) plus domain.")
+var stats = evid.New("C22", "rapid: histories of 1..8 writes; small domain, shape dense: offset 0..12, length 1..8, shape sparse (1 history in 3): offset 0..30, length 1..3, 1 write in 5 of length 1..30 (zero-length writes as a separate class, 1 write in 10), wide domain offsets built around byte-carry points (255/256, 65535/65536, 2^24, 2^32, 2^40) and around the ends of earlier writes, lengths 1..300 or up to 70000; after EVERY write every offset 0..max+2 (small) / every start, end, start-1, end-1, end+1 and drawn offsets (wide) is probed with request lengths 1, 2, 3, a drawn one and one reaching past the last write. Exhaustive sub-run: every sequence of <=3 writes with offset,length in 0..6 (thorough: also every sequence of <=4 writes whose starts and ends lie in 0..7, which realises every order pattern of 4 writes). Non-trivial: >=2 writes of which at least one pair overlaps, touches (end==start), nests or is identical; distinct by the normalised interval pattern (rank-compressed starts/ends in order of the writes, zero-length writes marked) plus domain.")
 
 const idZeroLen = "C22-zero-length-write-marks-prefix-modified"
 
@@ -323,7 +323,7 @@ func record(c caseT, out outcome) {
 // All writes are drawn as slice elements (rapid.SliceOfN) so that the shrinker can drop any write
 // of a failing history, not only the last ones.
 
-func genSmallWrite(maxOff, maxLen int64, zeroOK bool) *rapid.Generator[write] {
+func genSmallWrite(maxOff, maxLen, longLen int64, zeroOK bool) *rapid.Generator[write] {
 	return rapid.Custom(func(t *rapid.T) write {
 		w := write{Off: rapid.Int64Range(0, maxOff).Draw(t, "off")}
 		if rapid.IntRange(0, 9).Draw(t, "zero") == 0 {
@@ -331,6 +331,10 @@ func genSmallWrite(maxOff, maxLen int64, zeroOK bool) *rapid.Generator[write] {
 				return w // zero-length class
 			}
 			stats.Count("excluded_"+idZeroLen, 1)
+		}
+		if longLen > 0 && rapid.IntRange(0, 4).Draw(t, "long") == 0 {
+			w.Len = rapid.Int64Range(1, longLen).Draw(t, "len") // a write that can swallow several regions
+			return w
 		}
 		w.Len = rapid.Int64Range(1, maxLen).Draw(t, "len")
 		return w
@@ -348,11 +352,11 @@ func drawMinWrites(t *rapid.T) int {
 
 func drawSmall(t *rapid.T) caseT {
 	c := caseT{Domain: "small"}
-	maxOff, maxLen := int64(12), int64(8) // dense: regions merge quickly
+	maxOff, maxLen, longLen := int64(12), int64(8), int64(0) // dense: regions merge quickly
 	if rapid.IntRange(0, 2).Draw(t, "sparse") == 0 {
-		maxOff, maxLen = 30, 3 // sparse: several regions coexist
+		maxOff, maxLen, longLen = 30, 3, 30 // sparse: several regions coexist; 1 write in 5 is long
 	}
-	c.Writes = rapid.SliceOfN(genSmallWrite(maxOff, maxLen, !hx.Known(idZeroLen)), drawMinWrites(t), 8).Draw(t, "writes")
+	c.Writes = rapid.SliceOfN(genSmallWrite(maxOff, maxLen, longLen, !hx.Known(idZeroLen)), drawMinWrites(t), 8).Draw(t, "writes")
 	c.ReqLens = []int64{rapid.Int64Range(1, 40).Draw(t, "reqlen")}
 	return c
 }
